@@ -23,8 +23,11 @@ def gen_units(rng, n, sizes, pattern, labels, unlabelled=False, span=40):
     units = []
     maxs = max(sizes) if sizes else 0
 
+    # unlabelled: False / True, or a probability (mixed continua: some units labelled, some not)
+    p_none = 1.0 if unlabelled is True else (0.0 if not unlabelled else float(unlabelled))
+
     def lab():
-        return None if unlabelled else rng.choice(labels)
+        return None if (p_none > 0 and rng.random() < p_none) else rng.choice(labels)
 
     if pattern in ("perturbed", "identical", "disjoint"):
         # a hidden reference track, each annotator perturbs it
@@ -76,7 +79,7 @@ def gen_units(rng, n, sizes, pattern, labels, unlabelled=False, span=40):
             tries = 0
             while len(us) < sizes[a] and tries < 200:
                 s, d = rng.choice(segs)
-                us.add((s, s + d, None if unlabelled else rng.choice(labels)))
+                us.add((s, s + d, lab()))
                 tries += 1
                 if tries > 50:
                     segs.append((rng.randrange(0, 10 * GRID), rng.randrange(1, 4 * GRID)))
@@ -93,7 +96,7 @@ def gen_units(rng, n, sizes, pattern, labels, unlabelled=False, span=40):
             units.append(us)
     else:
         raise ValueError(pattern)
-    return [sorted((_t(s), _t(e), l) for (s, e, l) in us if e > s) for us in units]
+    return [sorted(((_t(s), _t(e), l) for (s, e, l) in us if e > s), key=lambda t: (t[0], t[1], t[2] is not None, t[2] or "")) for us in units]
 
 
 ANNOTATORS = ["ann_a", "ann_b", "ann_c", "ann_d", "ann_e", "ann_f"]
